@@ -40,9 +40,18 @@ inductive Cert
   | wrongName   -- trusted issuer, other name
 deriving DecidableEq, Repr
 
-/-- What is published at `_25._tcp.<mx>` relative to the certificate the server presents. -/
+/-- What is published at `_25._tcp.<mx>` relative to the certificate CHAIN the server presents
+(end-entity certificate first, then 1–2 further certificates: its issuer and / or certificates that have nothing to
+do with it, e.g. the genuine MX's public certificate replayed by a server that does not hold its key):
+* `eeMatch`  DANE-EE (usage 3) record matching the END-ENTITY certificate (position 0);
+* `taMatch`  DANE-TA (usage 2) record matching a presented CA certificate the end-entity certificate chains to;
+* `eeOther`  DANE-EE record whose digest matches a presented certificate OTHER than the end-entity one
+             (`verifyDANE` compares usage-3 records with `PeerCertificates[0]` only: no match);
+* `taOther`  DANE-TA record matching a presented certificate that is not on the certification path of the
+             end-entity certificate (foreign CA, or a non-CA certificate: chain verification fails);
+* `mismatch` usable record matching nothing that is presented; `unusable` only records of other usages. -/
 inductive Tlsa
-  | none | eeMatch | taMatch | mismatch | unusable | servfail
+  | none | eeMatch | taMatch | mismatch | unusable | servfail | eeOther | taOther
 deriving DecidableEq, Repr
 
 inductive STS
@@ -181,7 +190,9 @@ def discover (mx : MX) : Disc :=
 inductive Verdict | noReq | auth | err
 deriving DecidableEq
 
-/-- `verifyDANE` on a non-empty RRset of the given kind (all its errors are 550). -/
+/-- `verifyDANE` on a non-empty RRset of the given kind (all its errors are 550).  DANE-EE records are compared
+with the end-entity certificate only, DANE-TA records authenticate only through a verified chain from the
+end-entity certificate (name check included): `eeOther` / `taOther` / `mismatch` are refused. -/
 def verifyDANE (t : Tlsa) (cert : Cert) (tlsOn : Bool) : Verdict :=
   if !tlsOn then .err else
   match t with
@@ -388,5 +399,109 @@ def run (cfg : Cfg) (doms : Nat → Domain) : List Msg → Pool → List MsgOut
   | m :: rest, pool =>
     let r := deliverMsg cfg doms m pool
     r.1 :: run cfg doms rest r.2
+
+/-! ## several deliveries at once: the policy lookups
+
+`mtastsDelivery.PrepareDomain` / `daneDelivery.PrepareConn` create a NEW future per call, owned by the delivery
+object (one object per message: `Start`), and start a goroutine that performs the lookup with the context of THAT
+delivery and sets THAT future.  `CheckMX` / `CheckConn` read the delivery's current future with
+`GetContext(ctx)`: the value if it is set; otherwise they wait, and return "lookup failed" when the delivery's own
+context is done first (MTA-STS: treated as "no policy"; DANE: temporary refusal).  There is no state shared
+between the policy objects of different deliveries (the MTA-STS cache is part of the fetcher oracle: no cached
+policy here).
+
+Model: the lookup state of ONE delivery (`LkSt`), a global state = one `LkSt` per delivery id, and steps of
+several deliveries in any interleaving.  `α` is what a lookup yields (`STS` for the policy fetch, `Disc` for the
+TLSA discovery), `err : α` the value the waiting code acts on when the lookup failed (`STS.absent`, `Disc.fail`). -/
+
+structure LkSt (α : Type) where
+  cancelled : Bool := false               -- the context of the delivery is done (cancelled / deadline passed)
+  gen       : Nat := 0                    -- futures created so far
+  cur       : Option (α × Option α) := none   -- current future: (what its lookup will find, the result once set)
+
+inductive LkStep (α : Type)
+  | prepare (i : Nat) (v : α)   -- delivery `i` calls Prepare…: new future; its lookup will find `v` (the world's facts)
+  | returns (i : Nat) (g : Nat) -- the lookup goroutine of the `g`-th future of delivery `i` returns and sets ITS future
+  | cancel  (i : Nat)           -- the context of delivery `i` is cancelled / times out
+  | check   (i : Nat)           -- delivery `i` reads its current future (`CheckMX` / `CheckConn`)
+
+def LkStep.who {α : Type} : LkStep α → Nat
+  | .prepare i _ => i | .returns i _ => i | .cancel i => i | .check i => i
+
+/-- what a `check` step observes -/
+inductive LkObs (α : Type)
+  | nilFuture          -- Prepare… was never called: `nil future used` panic
+  | blocked            -- still waiting (the step is taken again later)
+  | saw (r : α)        -- the value acted upon
+deriving DecidableEq, Repr
+
+/-- one step on the delivery's own state; the lookup goroutine runs with the delivery's own context, so a
+lookup that returns after the context is done yields the error value -/
+def lkOwn {α : Type} (err : α) (st : LkSt α) : LkStep α → LkSt α × Option (LkObs α)
+  | .prepare _ v => ({ st with gen := st.gen + 1, cur := some (v, none) }, none)
+  | .returns _ g =>
+    match st.cur with
+    | some (v, none) =>
+      if g = st.gen then ({ st with cur := some (v, some (if st.cancelled then err else v)) }, none) else (st, none)
+    | _ => (st, none)                      -- the future of an abandoned attempt: nobody reads it
+  | .cancel _ => ({ st with cancelled := true }, none)
+  | .check _ =>
+    match st.cur with
+    | none => (st, some .nilFuture)
+    | some (_, some r) => (st, some (.saw r))
+    | some (_, none) => (st, some (if st.cancelled then .saw err else .blocked))
+
+abbrev LkWorld (α : Type) := Nat → LkSt α
+
+def lkInit {α : Type} : LkWorld α := fun _ => {}
+
+/-- a step of delivery `who` touches the state of that delivery only -/
+def lkStep {α : Type} (err : α) (σ : LkWorld α) (s : LkStep α) : LkWorld α × Option (Nat × LkObs α) :=
+  let r := lkOwn err (σ s.who) s
+  (fun j => if j = s.who then r.1 else σ j, r.2.map (fun o => (s.who, o)))
+
+/-- run an interleaving; the observations of all deliveries in order, and the final state -/
+def lkExec {α : Type} (err : α) : List (LkStep α) → LkWorld α → List (Nat × LkObs α) × LkWorld α
+  | [], σ => ([], σ)
+  | s :: rest, σ =>
+    let r := lkStep err σ s
+    let rr := lkExec err rest r.1
+    ((match r.2 with | some e => [e] | none => []) ++ rr.1, rr.2)
+
+/-- what delivery `i` finally acts upon after the interleaving (`dflt` while nothing was observed) -/
+def lkSeen {α : Type} (err dflt : α) (steps : List (LkStep α)) (i : Nat) : α :=
+  ((lkExec err steps lkInit).1.foldl
+    (fun acc e => if e.1 = i then (match e.2 with | .saw r => r | _ => acc) else acc) dflt)
+
+/-- The schedule the harness drives (`C05 conc`): `k` deliveries to one domain whose policy is `v` start one after
+the other, the `victim` (if `< k`) is cancelled while every lookup is still in flight, its lookup returns, it
+checks; then the lookups of the others return and they check. -/
+def lkSchedule {α : Type} (v : α) (k victim : Nat) : List (LkStep α) :=
+  (List.range k).map (fun i => LkStep.prepare i v) ++
+  (if victim < k then [LkStep.cancel victim, .returns victim 1, .check victim] else []) ++
+  ((List.range k).filter (· ≠ victim)).flatMap (fun i => [LkStep.returns i 1, .check i])
+
+/-- the domain as delivery `i` of a concurrent batch sees it: the MTA-STS policy it acts upon -/
+def concDomain (d : Domain) (k victim i : Nat) : Domain :=
+  { d with sts := lkSeen STS.absent d.sts (lkSchedule d.sts k victim) i }
+
+/-- pool after two deliveries that started from the same pool snapshot returned their connections -/
+def Pool.merge (p q : Pool) : Pool := fun d => p d ++ q d
+
+/-- A batch of overlapping deliveries on one target, all started before any of them finished (every `pool.Get`
+sees the same `pool` snapshot, here always the empty one), committed in list order; `victim` is aborted by its
+caller after its context was cancelled: it has no connection (every dial happens after the cancellation). -/
+def runConc (cfg : Cfg) (doms : Nat → Domain) (k victim : Nat) :
+    List Msg → Nat → Pool → List (Option MsgOut) × Pool
+  | [], _, acc => ([], acc)
+  | m :: rest, i, acc =>
+    if i = victim then
+      let rr := runConc cfg doms k victim rest (i + 1) acc
+      (none :: rr.1, rr.2)
+    else
+      let seen : Nat → Domain := fun x => if x = 0 then concDomain (doms 0) k victim i else doms x
+      let r := deliverMsg cfg seen m emptyPool
+      let rr := runConc cfg doms k victim rest (i + 1) (acc.merge r.2)
+      (some r.1 :: rr.1, rr.2)
 
 end MaddyVerif.RemoteSec
